@@ -26,15 +26,20 @@ MAX_RUNS = {"quick": 8000, "thorough": 1000000}
 TOL = 1e-9
 
 RULE = (
-    "One run = one (GMM with scalar/vector/matrix variance floors, data set of 1..40 rows incl. "
-    "far-tail rows, assignment of rows to 1..n blocks (consecutive composition or arbitrary), "
-    "per-block backend NumPy or Dask with its own row chunking, per-block transfer shared or "
-    "cloudpickle-copied, seeded merge schedule over {a+b, b+a, a+=b, reduce(iadd)}, eager or "
-    "lazy merging of Dask-backed statistics, executor model/policy for every Dask compute). "
-    "Invariants are checked after every merge step; the merged result is compared with "
-    "whole-set accumulation and with an independent longdouble reference model. Fixed cases "
-    "enumerate all 2^(n-1) compositions for n<=6 (thorough n<=8) x 3 merge schedules. "
-    "Non-trivial = more than one block; distinct = distinct (case digest, event-log digest)."
+    "One run = one (GMM with scalar/vector/matrix variance floors, data set of 1..260 rows incl. "
+    "far-tail rows, float32-representable / Fortran / strided inputs, assignment of rows to "
+    "1..n blocks (consecutive composition or arbitrary; empty blocks; a single sample as a 1-D "
+    "vector), per-block backend NumPy or Dask with its own row chunking, per-block transfer "
+    "shared or cloudpickle-copied, seeded merge schedule over {a+b, b+a, a+=b, reduce(iadd)}, "
+    "eager or lazy merging of Dask-backed statistics, executor model/policy for every Dask "
+    "compute). Invariants after every merge step (count conservation, responsibilities >= 0 and "
+    "summing to the count, operands of + untouched and not aliased, += returns its left operand); "
+    "the merged result is compared with whole-set accumulation and with an independent "
+    "longdouble reference model; the repository's own trainer reduction (gmm.m_step on the list "
+    "of block statistics) is compared with the same M-step on whole-set statistics; incompatible "
+    "shapes must be refused without side effects. Fixed cases: all 2^(n-1) compositions for n<=6 "
+    "(thorough n<=8) x 3 merge schedules. Non-trivial = more than one block; distinct = distinct "
+    "(case digest, event-log + result digest)."
 )
 ASSUMPTIONS = [
     "reference model: independent numpy.longdouble computation from the machine's visible "
